@@ -73,10 +73,13 @@ impl<K, V, const N: usize> Map<K, V, N> {
     /// ```
     #[inline]
     pub fn clear(&mut self) {
-        for i in 0..self.len {
+        let len = self.len;
+        // forget the pairs before dropping them: if a destructor panics, the rest
+        // are leaked instead of being dropped a second time with the map
+        self.len = 0;
+        for i in 0..len {
             unsafe { self.item_drop(i) };
         }
-        self.len = 0;
     }
 
     /// Retains only the elements specified by the predicate.
